@@ -202,8 +202,8 @@ class Gen:
         r = self.rng
         n = r.choice([0, 1, 1, 2, 2, 3, 3, 4, 4, 5, 6, 7, 8, 10, 12])
         pat = ''.join(self.item() for _ in range(n))
-        if r.random() < 0.04:
-            pat += r.choice(['%', '%{', '%{message'])
+        if r.random() < 0.06:
+            pat += r.choice(['%', '%{', '%{message', '%{oops %%', '%{a %% b%', '%{%%', '%{x %%%% 100%'])
             self.hit('trailing-percent-or-open')
         attrs = []
         for k in ATTRN:
@@ -345,7 +345,7 @@ def run():
     thorough = chk.tier == 'thorough'
     g = Gen(chk.rng)
     corpus = load_corpus()
-    cases = list(corpus) + [g.case() for _ in range(150000 if thorough else 20000)]
+    cases = list(corpus) + [g.case() for _ in range(150000 if thorough else 15000)]
     if thorough:
         # the pending count saturates at INT_MAX (only here: code carrying markers in band would allocate 2^31 of them)
         base = dict(cases[0]) if cases else g.case()
